@@ -125,3 +125,82 @@ Proof.
   split; [reflexivity|]. split; [simpl; auto|].
   intros o [<-|[<-|[]]]; repeat split; try discriminate; intros; discriminate.
 Qed.
+
+(* ------------------------------------------------------------------------------------ *)
+(* A late ActionStarted after the Stop.  `LEvent KStarted a` is an ALLOWED operation of the trace
+   theorem (only a second Start is excluded): process_event puts the action back to STARTED and
+   leaves flow_scope_count at 0.  The guard `flow_scope_count == 0` then protects the action: every
+   later release decrements 0 -> -1 -> ... and never sees 0 again. *)
+
+Lemma stop_action_below_zero : forall s a c s',
+  geta s a = Some c -> (a_count c <= 0)%Z -> stop_action s a = Ok s' ->
+  out s' = out s /\
+  exists c', geta s' a = Some c' /\ (a_count c' <= 0)%Z /\
+             (active (a_status c) = true -> a_count c' = (a_count c - 1)%Z /\ a_status c' = a_status c).
+Proof.
+  unfold stop_action; intros s a c s' Hc Hle H. rewrite Hc in H.
+  destruct (active (a_status c)) eqn:Ea.
+  - destruct (a_count c - 1 =? 0)%Z eqn:Ez; [apply Z.eqb_eq in Ez; lia|].
+    inversion H; subst. split; auto.
+    exists (mkAct (a_status c) (a_count c - 1)%Z). rewrite (geta_seta_same _ _ _ _ Hc). simpl.
+    repeat split; auto; lia.
+  - inversion H; subst. split; auto. exists c. repeat split; auto. discriminate.
+Qed.
+
+(* f(2) started action 10 inside scope 7; the scope ends (Stop), the ActionStarted arrives late,
+   then f finishes *)
+Definition late_state : st :=
+  mkSt [ (1, ex_i 0 FStarted None [2] [] 1%Z);
+         (2, mkInst 1 FStarted (Some 1) [] [10] [(7, ([], [10]))] 0%Z false) ]
+       [ (10, mkAct AStarting 1%Z) ] [].
+Definition late_ops : list lop := [LEndScope 2 7; LEvent KStarted 10; LFinish 2 false].
+
+Example late_started_one_stop :
+  Forall allowed late_ops /\
+  exists s', lrun true 3 late_ops late_state = Ok s' /\ out s' = [EStop 10; EFinished 2] /\
+             geta s' 10 = Some (mkAct AStarted (-1)%Z).
+Proof. split; [repeat constructor|]. eexists. split; [vm_compute; reflexivity|]. vm_compute. auto. Qed.
+
+(* the variant of the guard with `flow_scope_count <= 0` *)
+Definition stop_action_le (s : st) (a : uid) : res st :=
+  match geta s a with
+  | None => Err EKeyAction
+  | Some c =>
+    if active (a_status c) then
+      let n := (a_count c - 1)%Z in
+      if (n <=? 0)%Z then Ok (emit1 (seta s a (mkAct AStopping n)) (EStop a))
+      else Ok (seta s a (mkAct (a_status c) n))
+    else Ok s
+  end.
+
+(* the two guards agree as long as the count is positive ... *)
+Lemma stop_action_le_agrees : forall s a c, geta s a = Some c -> (0 < a_count c)%Z ->
+  stop_action_le s a = stop_action s a.
+Proof.
+  unfold stop_action_le, stop_action; intros s a c Hc Hp. rewrite Hc.
+  destruct (active (a_status c)); auto.
+  destruct (a_count c - 1 =? 0)%Z eqn:E1, (a_count c - 1 <=? 0)%Z eqn:E2; auto.
+  - apply Z.eqb_eq in E1. apply Z.leb_gt in E2. lia.
+  - apply Z.eqb_neq in E1. apply Z.leb_le in E2. lia.
+Qed.
+
+(* ... but with `<= 0` the release at the scope end, the late Started and the release at the end of
+   the flow send TWO Stops for the same action: `== 0` is what makes the second one impossible *)
+Definition stop_guard_le_two_stops : Prop :=
+  exists s a s1 s3,
+    stop_action_le s a = Ok s1 /\ nstops a (out s1) = 1%nat /\
+    stop_action_le (action_event KStarted a s1) a = Ok s3 /\ nstops a (out s3) = 2%nat.
+
+Theorem stop_guard_le_witness : stop_guard_le_two_stops.
+Proof.
+  exists late_state, 10. eexists. eexists.
+  split; [vm_compute; reflexivity|]. split; [reflexivity|].
+  split; [vm_compute; reflexivity|]. reflexivity.
+Qed.
+
+(* the same three steps with the real guard: one Stop, count -1 *)
+Example stop_guard_eq_one_stop :
+  exists s1 s3, stop_action late_state 10 = Ok s1 /\
+                stop_action (action_event KStarted 10 s1) 10 = Ok s3 /\
+                nstops 10 (out s3) = 1%nat /\ geta s3 10 = Some (mkAct AStarted (-1)%Z).
+Proof. eexists. eexists. split; [vm_compute; reflexivity|]. split; [vm_compute; reflexivity|]. vm_compute. auto. Qed.
